@@ -25,6 +25,11 @@ type c10Key struct {
 	Simple   bool     `json:"simple"`
 	Children []string `json:"children"`
 	Lease    bool     `json:"lease"`
+	// second phase: the stored content is partially taken away again, so that a
+	// listing has to reflect what is LEFT, not what was ever written
+	RemoveChildren []string `json:"remove_children,omitempty"`
+	DeleteSimple   bool     `json:"delete_simple,omitempty"`
+	ReleaseLease   bool     `json:"release_lease,omitempty"`
 }
 
 type c10Case struct {
@@ -37,13 +42,13 @@ type c10Case struct {
 
 func TestC10(t *testing.T) {
 	rec := ev.New(t, "C10")
-	rec.Rule("rapid-generated stable rings of 1..8 real LocalNodes (ids placed next to the keys' hashes so that the keys spread over several nodes; stores drawn from memory/aof/sqlite) and key sets from a prefix-closed alphabet (keys that are prefixes of each other, shared prefixes, '/' segments); each key holds a generated non-empty subset of {simple value, prefix children, lease} written through the DHT; ListKeys is issued from EVERY node for generated prefixes (incl. the empty prefix, existing keys, proper prefixes and non-matching prefixes). Oracle: the result equals, as a multiset of (key, kind), the model filtered by string prefix - every stored key once per kind it holds, nothing else. Non-trivial: >= 2 nodes hold data and >= 1 key has >= 2 kinds. Distinct = distinct cases.")
+	rec.Rule("rapid-generated stable rings of 1..8 real LocalNodes (ids placed next to the keys' hashes so that the keys spread over several nodes; stores drawn from memory/aof/sqlite) and key sets from a prefix-closed alphabet (keys that are prefixes of each other, shared prefixes, '/' segments); each key holds a generated non-empty subset of {simple value, prefix children, lease} written through the DHT and then partially taken away again through another node (some or all children removed, value deleted, lease released); ListKeys is issued from EVERY node for generated prefixes (incl. the empty prefix, existing keys, proper prefixes and non-matching prefixes). Oracle: the result equals, as a multiset of (key, kind), the model filtered by string prefix - every stored key once per kind it holds, nothing else. Non-trivial: >= 2 nodes hold data and >= 1 key has >= 2 kinds. Distinct = distinct cases.")
 	rec.Assume("values are non-empty (an empty simple value counts as absent; see C16), leases use a 10 min TTL so they do not expire during the case")
 	anchors := []uint64{}
 	for _, k := range c10Alphabet {
 		anchors = append(anchors, chord.Hash([]byte(k)))
 	}
-	backs := ev.Pick([]int{0, 0, 0, 1, 2}, []int{0, 1, 2})
+	backs := ev.Pick([]int{0, 0, 1, 2, 2}, []int{0, 1, 2})
 	ev.RapidCheck(t, 40, 800, func(t *rapid.T) {
 		ids := genLayoutIDs(1, 8, anchors...).Draw(t, "ids")
 		cs := c10Case{IDs: ids,
@@ -62,6 +67,12 @@ func TestC10(t *testing.T) {
 				k.Children = rapid.SliceOfNDistinct(rapid.SampledFrom([]string{"x", "y", "ab", "a"}), 1, 3, rapid.ID[string]).Draw(t, "children")
 			}
 			k.Lease = mask&4 != 0
+			if len(k.Children) > 0 && rapid.IntRange(0, 2).Draw(t, "removeSome") > 0 {
+				n := rapid.IntRange(1, len(k.Children)).Draw(t, "nRemove") // partial or complete removal
+				k.RemoveChildren = append([]string{}, k.Children[:n]...)
+			}
+			k.DeleteSimple = k.Simple && rapid.IntRange(0, 3).Draw(t, "deleteSimple") == 0
+			k.ReleaseLease = k.Lease && rapid.IntRange(0, 3).Draw(t, "releaseLease") == 0
 			cs.Keys = append(cs.Keys, k)
 		}
 		cs.Prefixes = rapid.SliceOfN(rapid.SampledFrom(append([]string{"q", "abx", "b/x/", "zz"}, c10Alphabet...)), 3, 8).Draw(t, "prefixes")
@@ -83,6 +94,7 @@ func TestC10(t *testing.T) {
 		type kk struct{ key, kind string }
 		model := map[kk]int{}
 		multiKind := false
+		partialRemovals := 0
 		for i, k := range cs.Keys {
 			entry := live[i%len(live)].Node
 			kinds := 0
@@ -102,12 +114,41 @@ func TestC10(t *testing.T) {
 				model[kk{k.Key, "PREFIX"}]++
 				kinds++
 			}
+			var token uint64
 			if k.Lease {
-				if err := retryKV(func() error { _, e := entry.Acquire(ctx, []byte(k.Key), 10*time.Minute); return e }); err != nil {
+				if err := retryKV(func() (e error) { token, e = entry.Acquire(ctx, []byte(k.Key), 10*time.Minute); return e }); err != nil {
 					t.Fatalf("harness: Acquire on stable ring: %v", err)
 				}
 				model[kk{k.Key, "LEASE"}]++
 				kinds++
+			}
+			// second phase through another entry node
+			entry2 := live[(i+1)%len(live)].Node
+			for _, c := range k.RemoveChildren {
+				if err := retryKV(func() error { return entry2.PrefixRemove(ctx, []byte(k.Key), []byte(c)) }); err != nil {
+					t.Fatalf("harness: PrefixRemove on stable ring: %v", err)
+				}
+			}
+			if len(k.RemoveChildren) > 0 {
+				partialRemovals++
+				if len(k.RemoveChildren) == len(k.Children) {
+					delete(model, kk{k.Key, "PREFIX"})
+					kinds--
+				}
+			}
+			if k.DeleteSimple {
+				if err := retryKV(func() error { return entry2.Delete(ctx, []byte(k.Key)) }); err != nil {
+					t.Fatalf("harness: Delete on stable ring: %v", err)
+				}
+				delete(model, kk{k.Key, "SIMPLE"})
+				kinds--
+			}
+			if k.ReleaseLease {
+				if err := retryKV(func() error { return entry2.Release(ctx, []byte(k.Key), token) }); err != nil {
+					t.Fatalf("harness: Release on stable ring: %v", err)
+				}
+				delete(model, kk{k.Key, "LEASE"})
+				kinds--
 			}
 			if kinds >= 2 {
 				multiKind = true
@@ -120,7 +161,7 @@ func TestC10(t *testing.T) {
 			}
 		}
 		rec.Case(nodesWithData >= 2 && multiKind, fmt.Sprintf("%+v", cs), func() any { return cs },
-			fmt.Sprintf("nodes-with-data:%d", nodesWithData), fmt.Sprintf("N=%d", len(live)))
+			fmt.Sprintf("nodes-with-data:%d", nodesWithData), fmt.Sprintf("N=%d", len(live)), fmt.Sprintf("keys-with-removed-children:%v", partialRemovals > 0))
 		render := func(m map[kk]int) []string {
 			out := []string{}
 			for k, n := range m {
